@@ -151,6 +151,25 @@ def run_shard(spec, rep):
                 rep.check("default selectivity is the molar one", abs(mem.get_ideal_selectivity(t, c1, c2) - sm), 0.0, case)
             except Exception as e:
                 rep.violation("valid membrane query raised", case, {"error": repr(e)})
+        if route == "direct" and rng.random() < 0.3:
+            # the same Membrane OBJECT with its experiments replaced in place (a re-measured data set): answers must follow
+            # the new experiments exactly like a freshly built membrane
+            e1b, _ = gen.gen_experiments(rng, c1, ns[0], stated[0], on_line)
+            e2b, _ = gen.gen_experiments(rng, c2, ns[1], stated[1], on_line)
+            mem.ideal_experiments = IdealExperiments(experiments=e1b + e2b)
+            fresh = Membrane(name="M", ideal_experiments=IdealExperiments(experiments=e1b + e2b))
+            for comp in (c1, c2):
+                tq = rng.uniform(260, 420)
+                try:
+                    a, b = mem.get_permeance(tq, comp).value, fresh.get_permeance(tq, comp).value
+                    rep.require("a membrane whose experiments were replaced answers like a freshly built one (bitwise)", a == b,
+                                {"index": index, "mixture": mdesc, "T": tq, "component": comp.name}, {"edited_object": a, "fresh_object": b})
+                    if len([e for e in (e1b + e2b) if e.component.name == comp.name]) >= 2:
+                        ea_, eb_ = mem.calculate_activation_energy(comp), fresh.calculate_activation_energy(comp)
+                        rep.require("a membrane whose experiments were replaced answers like a freshly built one (bitwise)", ea_ == eb_,
+                                    {"index": index, "mixture": mdesc, "component": comp.name, "what": "activation energy"}, {"edited_object": ea_, "fresh_object": eb_})
+                except Exception as e:
+                    rep.violation("valid membrane query raised", {"index": index, "mixture": mdesc}, {"error": repr(e)})
 
 
 def finalize(agg, tier):
